@@ -476,4 +476,244 @@ theorem evalConds_respects : (cs : List Ast) → ∀ c ∈ evalConds cs, Respect
     · exact evalConds_respects ts c hc
 end
 
+/-! ### the code's scoping discipline: save, set in place, restore
+
+  `Eval.comprehension` runs the loop on a local copy of the bindings (each index binds the generator
+  variables on top of the OUTER environment and the result is thrown away).  The code instead mutates
+  the session's dictionary in place and puts the saved entries back in a `finally`.  The definitions
+  below follow the code (eval.py `EvalEnvironment.save_variables` / `restore_variables`,
+  `eval_comprehension`'s try/finally, `run_comprehension`'s in-place `set_variable`); the theorems show
+  that this is observationally the local copy: same value or failure, and afterwards every name reads
+  as before. -/
+
+/-- `EvalEnvironment.save_variables(names)`: per name, whether it was set and its value -/
+def saveVars (env : Env) (names : List String) : List (String × Option Val) := names.map (fun n => (n, env.get n))
+
+/-- `self._variables.pop(name, None)` -/
+def envPop (env : Env) (x : String) : Env := env.filter (fun p => p.1 != x)
+
+/-- `EvalEnvironment.restore_variables(saved)` -/
+def restoreVars : Env → List (String × Option Val) → Env
+  | env, [] => env
+  | env, (n, some v) :: r => restoreVars (env.set n v) r
+  | env, (n, Option.none) :: r => restoreVars (envPop env n) r
+
+/-- the `for name, subarray in zip(assign_names, subarrays)` loop at index `i`, writing into the session's
+    bindings; `true` = some generator was exhausted (the earlier names of this round are already written) -/
+def bindInPlace (i : Nat) : List (String × List Val) → Env → Env × Bool
+  | [], env => (env, false)
+  | (n, a) :: rest, env =>
+    match a[i]? with
+    | some v => bindInPlace i rest (env.set n v)
+    | Option.none => (env, true)
+
+/-- `run_comprehension` on the session's own bindings: returns them as the loop leaves them -/
+def comprLoopMut (gens : List (String × List Val)) (conds : List (Env → R Val)) (body : Env → R Val) :
+    Nat → Nat → Env → List Val → Env × R Val
+  | 0, _, env, _ => (env, .error .fuel)
+  | f + 1, i, env, acc =>
+    match bindInPlace i gens env with
+    | (env', true) => (env', .ok (.arr acc.reverse))
+    | (env', false) =>
+      match condLoop env' conds true with
+      | .error er => (env', .error er)
+      | .ok false => comprLoopMut gens conds body f (i + 1) env' acc
+      | .ok true =>
+        match body env' >>= resolveLazy with
+        | .error er => (env', .error er)
+        | .ok v => comprLoopMut gens conds body f (i + 1) env' (v :: acc)
+
+/-- `eval_comprehension` from the check of the generator values on: `saved = env.save_variables(names)`,
+    `try: run_comprehension(…) finally: env.restore_variables(saved)` — the bindings afterwards and the
+    value or failure -/
+def comprehensionMut (subs : List (String × Val)) (conds : List (Env → R Val)) (body : Env → R Val) (env : Env) :
+    Env × R Val :=
+  match arrays? subs with
+  | Option.none => (env, raise .eval)
+  | some gens =>
+    let saved := saveVars env (gens.map (·.1))
+    let n := (gens.map (fun g => g.2.length)).foldl min ((gens.headD ("", [])).2.length)
+    let r := comprLoopMut gens conds body (n + 1) 0 env []
+    (restoreVars r.1 saved, r.2)
+
+/-- two binding lists that read the same outside `names` -/
+def AgreeOff (names : List String) (a b : Env) : Prop := ∀ x, x ∉ names → a.get x = b.get x
+
+theorem AgreeOff.set {names : List String} {a b : Env} (h : AgreeOff names a b) (n : String) (hn : n ∈ names) (v : Val) :
+    AgreeOff names (a.set n v) b := by
+  intro x hx
+  have : x ≠ n := fun hh => hx (hh ▸ hn)
+  rw [get_set_other a n x v this]
+  exact h x hx
+
+theorem bindInPlace_agreeOff (i : Nat) (names : List String) (gens : List (String × List Val))
+    (hsub : ∀ g ∈ gens, g.1 ∈ names) (cur env : Env) (h : AgreeOff names cur env) :
+    AgreeOff names (bindInPlace i gens cur).1 env := by
+  induction gens generalizing cur with
+  | nil => exact h
+  | cons g rest ih =>
+    obtain ⟨n, a⟩ := g
+    simp only [bindInPlace]
+    cases a[i]? with
+    | none => exact h
+    | some v =>
+      exact ih (fun g hg => hsub g (List.mem_cons_of_mem _ hg)) _ (h.set n (hsub (n, a) List.mem_cons_self) v)
+
+/-- writing the generator variables in place on bindings that agree with the outer ones outside the
+    not-yet-written names = binding them on top of the outer ones -/
+theorem bindInPlace_rel (i : Nat) (rest : List (String × List Val)) (cur pur : Env)
+    (hinv : ∀ x, x ∈ rest.map (·.1) ∨ cur.get x = pur.get x) :
+    match bindInPlace i rest cur, bindGens i rest pur with
+    | (cur', false), some p' => EnvEq cur' p'
+    | (_, true), Option.none => True
+    | _, _ => False := by
+  induction rest generalizing cur pur with
+  | nil =>
+    simp only [bindInPlace, bindGens]
+    intro x
+    rcases hinv x with h | h
+    · simp at h
+    · exact h
+  | cons g rest ih =>
+    obtain ⟨n, a⟩ := g
+    simp only [bindInPlace, bindGens]
+    cases a[i]? with
+    | none => trivial
+    | some v =>
+      apply ih
+      intro x
+      by_cases hx : x = n
+      · right; subst hx; rw [get_set_same, get_set_same]
+      · rcases hinv x with h | h
+        · left
+          simp only [List.map_cons, List.mem_cons] at h
+          rcases h with h | h
+          · exact absurd h hx
+          · exact h
+        · right; rw [get_set_other _ _ _ _ hx, get_set_other _ _ _ _ hx]; exact h
+
+theorem agreeOff_inv {names : List String} {cur env : Env} (h : AgreeOff names cur env) :
+    ∀ x, x ∈ names ∨ cur.get x = env.get x := by
+  intro x
+  by_cases hx : x ∈ names
+  · exact Or.inl hx
+  · exact Or.inr (h x hx)
+
+/-- the in-place loop computes what the local-copy loop computes, and keeps every other name as it was -/
+theorem comprLoopMut_spec (gens : List (String × List Val)) (conds : List (Env → R Val)) (body : Env → R Val)
+    (hc : ∀ c ∈ conds, Respects c) (hb : Respects body) (env : Env) (fuel i : Nat) (cur : Env) (acc : List Val)
+    (h : AgreeOff (gens.map (·.1)) cur env) :
+    (comprLoopMut gens conds body fuel i cur acc).2 = Eval.comprLoop gens conds body env fuel i acc ∧
+    AgreeOff (gens.map (·.1)) (comprLoopMut gens conds body fuel i cur acc).1 env := by
+  induction fuel generalizing i cur acc with
+  | zero => exact ⟨rfl, h⟩
+  | succ f ih =>
+    have hrel := bindInPlace_rel i gens cur env (agreeOff_inv h)
+    have hoff := bindInPlace_agreeOff i (gens.map (·.1)) gens (fun g hg => List.mem_map_of_mem hg) cur env h
+    simp only [comprLoopMut, Eval.comprLoop]
+    cases h1 : bindInPlace i gens cur with
+    | mk cur' ex =>
+      rw [h1] at hrel hoff
+      simp only at hoff
+      cases h2 : bindGens i gens env with
+      | none =>
+        rw [h2] at hrel
+        cases ex with
+        | true => exact ⟨rfl, hoff⟩
+        | false => exact hrel.elim
+      | some p' =>
+        rw [h2] at hrel
+        cases ex with
+        | true => exact hrel.elim
+        | false =>
+          simp only at hrel ⊢
+          rw [condLoop_congr conds hc cur' p' hrel true, hb cur' p' hrel]
+          cases condLoop p' conds true with
+          | error er => exact ⟨rfl, hoff⟩
+          | ok keep =>
+            cases keep with
+            | false =>
+              simp only [bind, Except.bind, Bool.false_eq_true, if_false]
+              exact ih (i + 1) cur' acc hoff
+            | true =>
+              simp only [bind, Except.bind, if_true]
+              cases body p' with
+              | error er => exact ⟨rfl, hoff⟩
+              | ok v =>
+                dsimp only
+                cases resolveLazy v with
+                | error er => exact ⟨rfl, hoff⟩
+                | ok w => exact ih (i + 1) cur' (w :: acc) hoff
+
+theorem get_envPop_same (env : Env) (x : String) : (envPop env x).get x = none := lookup_filter_self env x
+theorem get_envPop_other (env : Env) (x y : String) (h : y ≠ x) : (envPop env x).get y = env.get y :=
+  lookup_filter_ne env x y h
+
+/-- `restore_variables(save_variables(names))` undoes every write to `names` -/
+theorem restoreVars_spec (env : Env) (l : List String) (cur : Env) (hinv : ∀ x, x ∈ l ∨ cur.get x = env.get x) :
+    EnvEq (restoreVars cur (saveVars env l)) env := by
+  induction l generalizing cur with
+  | nil =>
+    intro x
+    rcases hinv x with h | h
+    · simp at h
+    · exact h
+  | cons n l ih =>
+    simp only [saveVars, List.map_cons]
+    cases hv : env.get n with
+    | none =>
+      simp only [restoreVars]
+      apply ih
+      intro x
+      by_cases hx : x = n
+      · right; subst hx; rw [get_envPop_same, hv]
+      · rcases hinv x with h | h
+        · left
+          rcases List.mem_cons.mp h with h | h
+          · exact absurd h hx
+          · exact h
+        · right; rw [get_envPop_other _ _ _ hx]; exact h
+    | some v =>
+      simp only [restoreVars]
+      apply ih
+      intro x
+      by_cases hx : x = n
+      · right; subst hx; rw [get_set_same, hv]
+      · rcases hinv x with h | h
+        · left
+          rcases List.mem_cons.mp h with h | h
+          · exact absurd h hx
+          · exact h
+        · right; rw [get_set_other _ _ _ _ hx]; exact h
+
+/-- **save / set in place / restore is the local copy**: for conditions and a body that read the
+    bindings through `get` only (every expression tree does: `evalE_congr`), the code's discipline
+    returns what `Eval.comprehension` returns — value or failure —, and afterwards every name, generator
+    variable or not, reads exactly as before (also when the loop failed). -/
+theorem comprehensionMut_spec (subs : List (String × Val)) (conds : List (Env → R Val)) (body : Env → R Val)
+    (hc : ∀ c ∈ conds, Respects c) (hb : Respects body) (env : Env) :
+    (comprehensionMut subs conds body env).2 = Eval.comprehension subs conds body env ∧
+    EnvEq (comprehensionMut subs conds body env).1 env := by
+  simp only [comprehensionMut, Eval.comprehension]
+  cases arrays? subs with
+  | none => exact ⟨rfl, EnvEq.refl env⟩
+  | some gens =>
+    simp only
+    have h := comprLoopMut_spec gens conds body hc hb env
+      ((gens.map (fun g => g.2.length)).foldl min ((gens.headD ("", [])).2.length) + 1) 0 env [] (fun _ _ => rfl)
+    exact ⟨h.1, restoreVars_spec env _ _ (agreeOff_inv h.2)⟩
+
+/-- a generator value that is not an array makes `eval_comprehension` raise before the loop -/
+theorem arrays_none_of_bad (subs : List (String × Val)) (hbad : ∃ p ∈ subs, ∀ xs, p.2 ≠ Val.arr xs) :
+    arrays? subs = none := by
+  obtain ⟨p, hp, hpa⟩ := hbad
+  induction subs with
+  | nil => simp at hp
+  | cons q rest ih =>
+    obtain ⟨n, v⟩ := q
+    rcases List.mem_cons.mp hp with rfl | hp'
+    · cases v <;> first | rfl | exact absurd rfl (hpa _)
+    · have := ih hp'
+      cases v <;> simp [arrays?, this]
+
 end KaVerif.PipeArr
